@@ -48,6 +48,181 @@ pub struct CbcCase {
     /// callers (by index, mod 64) whose first poll starts on an exhausted cooperative budget
     #[serde(default)]
     pub starve_mask: u64,
+    /// C09 only: instead of a simulated history, rounds of real OS threads racing for the trial
+    /// slots of a half-open breaker (see crate::stress)
+    #[serde(default)]
+    pub stress: Option<CbStress>,
+}
+
+#[derive(Clone, Debug, Serialize, Deserialize)]
+pub struct CbStress {
+    pub permitted: usize,
+    pub threads: usize,
+    pub rounds: u32,
+    pub fallback: bool,
+    /// an on_call_permitted listener spends roughly this many loop iterations per event
+    pub spin: u32,
+}
+
+fn stress_strategy(tier: Tier) -> BoxedStrategy<CbcCase> {
+    let rounds = match tier {
+        Tier::Quick => 300u32,
+        Tier::Thorough => 3_000,
+    };
+    (1usize..=4, 3usize..=8, any::<bool>(), prop_oneof![Just(0u32), Just(500u32), Just(5_000u32), 0u32..=20_000])
+        .prop_map(move |(permitted, threads, fallback, spin)| CbcCase {
+            cfg: CbConfig {
+                time_based: false,
+                size: 10,
+                window_ms: 50,
+                thr20: 10,
+                min: None,
+                permitted,
+                wait_ms: 0,
+                slow: None,
+                custom_classifier: false,
+                idle_slow_rate10: None,
+                wait_huge: 0,
+                classifier_first: false,
+                listeners: false,
+            },
+            fallback,
+            clones: 1,
+            callers: vec![],
+            force_open_at: None,
+            order: vec![],
+            fallback_ms: 0,
+            late_probe: None,
+            starve_mask: 0,
+            stress: Some(CbStress {
+                permitted,
+                threads: threads.max(permitted + 1),
+                rounds,
+                fallback,
+                spin,
+            }),
+        })
+        .boxed()
+}
+
+/// Rounds of real threads racing for the trial slots of one half-open breaker: each round a fresh
+/// breaker (wait_duration_in_open zero) is forced open, then every thread makes one call through
+/// its own clone at the same time; the wrapped service never answers, so every admitted call stays
+/// a running trial. Oracle per round: at most permitted_calls_in_half_open calls reached the
+/// wrapped service.
+pub fn run_cb_stress(st: &CbStress) -> Report {
+    use std::future::Future;
+    use std::sync::atomic::{AtomicBool, AtomicUsize, Ordering};
+    use std::sync::{Arc, Barrier, Mutex};
+    let mut r = Report::default();
+    let entered = Arc::new(AtomicUsize::new(0));
+    let worst = Arc::new(AtomicUsize::new(0));
+    let stop = Arc::new(AtomicBool::new(false));
+    let slot: Arc<Mutex<Option<Handle>>> = Arc::new(Mutex::new(None));
+    let barrier = Arc::new(Barrier::new(st.threads));
+    let (permitted, rounds, fallback, spin) = (st.permitted, st.rounds, st.fallback, st.spin);
+    let (e2, w2, s2, sl2, b2) = (entered.clone(), worst.clone(), stop.clone(), slot.clone(), barrier.clone());
+    let spin_poll = |fut: &mut std::pin::Pin<Box<dyn Future<Output = ()> + Send>>| {
+        let waker = futures::task::noop_waker();
+        let mut cx = std::task::Context::from_waker(&waker);
+        for _ in 0..1_000_000 {
+            if fut.as_mut().poll(&mut cx).is_ready() {
+                return true;
+            }
+            std::thread::yield_now();
+        }
+        false
+    };
+    let panicked = crate::stress::run_threads(st.threads, move |k| {
+        let waker = futures::task::noop_waker();
+        let mut cx = std::task::Context::from_waker(&waker);
+        for _ in 0..rounds {
+            // set before the last barrier of the round that saw a violation: everybody stops here
+            if s2.load(Ordering::SeqCst) {
+                break;
+            }
+            if k == 0 {
+                // coordinator: a fresh breaker, forced open, its wait already over
+                e2.store(0, Ordering::SeqCst);
+                let e3 = e2.clone();
+                let inner = Scripted::new(Log::new(), 1, move |_, _, _| {
+                    e3.fetch_add(1, Ordering::SeqCst);
+                    Step {
+                        lat: Lat::Never,
+                        out: Out::Ok,
+                    }
+                });
+                let layer = tower_resilience_circuitbreaker::CircuitBreakerLayer::builder()
+                    .name("stress")
+                    .sliding_window_size(10)
+                    .permitted_calls_in_half_open(permitted)
+                    .wait_duration_in_open(std::time::Duration::ZERO)
+                    .failure_classifier(ignore_code_7 as fn(&Result<Resp, SErr>) -> bool)
+                    .on_call_permitted(move |_| crate::stress::spin(spin))
+                    .build();
+                let plain: Plain = layer.layer_fn(inner);
+                let h = if fallback {
+                    Handle::Fb(plain.with_fallback(move |req: Req| -> BoxFuture<'static, Result<Resp, SErr>> {
+                        Box::pin(async move {
+                            Ok(Resp {
+                                serial: FB_BASE + req.id as u64,
+                                req,
+                            })
+                        })
+                    }))
+                } else {
+                    Handle::Plain(plain)
+                };
+                let h2 = h.clone();
+                let mut f: std::pin::Pin<Box<dyn Future<Output = ()> + Send>> = Box::pin(async move { h2.force_open().await });
+                let _ = spin_poll(&mut f);
+                *sl2.lock().unwrap() = Some(h);
+            }
+            b2.wait();
+            let mut mine = sl2.lock().unwrap().clone().expect("breaker published");
+            b2.wait();
+            let mut fut = mine.call(Req {
+                id: k as u32,
+                key: 0,
+                tag: 0,
+            });
+            // poll until decided: a rejected call is ready; an admitted one sits in the wrapped
+            // service for good (a few more polls do no harm); lock contention resolves within a few
+            for _ in 0..60 {
+                if fut.as_mut().poll(&mut cx).is_ready() {
+                    break;
+                }
+                std::thread::yield_now();
+            }
+            b2.wait();
+            if k == 0 {
+                let n = e2.load(Ordering::SeqCst);
+                w2.fetch_max(n, Ordering::SeqCst);
+                if n > permitted {
+                    s2.store(true, Ordering::SeqCst);
+                }
+            }
+            drop(fut);
+            b2.wait();
+        }
+    });
+    let w = worst.load(Ordering::SeqCst);
+    if w > st.permitted {
+        r.fail(format!(
+            "{} threads calling a half-open breaker ({}) at the same time, {} rounds: in one round {w} calls reached the wrapped service, permitted_calls_in_half_open = {}",
+            st.threads,
+            if st.fallback { "with fallback" } else { "plain" },
+            st.rounds,
+            st.permitted
+        ));
+    }
+    if let Some(p) = panicked {
+        r.fail(format!("a circuit breaker call panicked on a stress thread: {p}"));
+    }
+    r.nontrivial = w >= 1;
+    r.class("real_thread_stress");
+    r.trace = json!({"most_trials_in_a_round": w, "stress": st});
+    r
 }
 
 fn small_config() -> BoxedStrategy<CbConfig> {
@@ -154,6 +329,7 @@ fn case_strategy(tier: Tier) -> BoxedStrategy<CbcCase> {
                 fallback_ms,
                 late_probe,
                 starve_mask,
+                stress: None,
             },
         );
     // a large permitted_calls_in_half_open and more slow trial callers than that at once
@@ -206,6 +382,7 @@ fn case_strategy(tier: Tier) -> BoxedStrategy<CbcCase> {
             fallback_ms: 0,
             late_probe: None,
             starve_mask: 0,
+            stress: None,
         });
     prop_oneof![40 => general, 1 => crowd].boxed()
 }
@@ -762,7 +939,11 @@ macro_rules! conc_prop {
                 $id
             }
             fn strategy(&self, tier: Tier) -> BoxedStrategy<CbcCase> {
-                case_strategy(tier)
+                if $id == "C09" {
+                    prop_oneof![1500 => case_strategy(tier), 1 => stress_strategy(tier)].boxed()
+                } else {
+                    case_strategy(tier)
+                }
             }
             fn budget(&self, tier: Tier) -> (u32, usize) {
                 match tier {
@@ -771,6 +952,9 @@ macro_rules! conc_prop {
                 }
             }
             fn run(&self, case: &CbcCase) -> Report {
+                if let Some(st) = &case.stress {
+                    return run_cb_stress(st);
+                }
                 let v = run_conc(case);
                 let mut r = Report::default();
                 if let Some(m) = v.$field.first() {
@@ -806,5 +990,5 @@ conc_prop!(
     "C09",
     c09,
     nontrivial_c09,
-    "same generated concurrent histories as C03. Oracle in log order: within one half-open period (from the observed transition into HalfOpen to the next transition) the inner entries, not counting trials abandoned by drop or panic, never exceed permitted_calls_in_half_open (the call that moved Open->HalfOpen counts); a caller first polled when that many trials are already admitted is rejected in that instant (OpenCircuit / fallback) and never enters. Non-trivial: a caller is polled in a half-open period in which the permitted number of trials is already admitted with at least one still in flight; distinct by hash of the case"
+    "same generated concurrent histories as C03 (about one case in 1500 is instead a real-thread stress: 300/3000 rounds of 3-8 OS threads calling a freshly opened breaker with an elapsed wait at the same time, the wrapped service never answering: at most permitted calls reach it per round). Oracle in log order: within one half-open period (from the observed transition into HalfOpen to the next transition) the inner entries, not counting trials abandoned by drop or panic, never exceed permitted_calls_in_half_open (the call that moved Open->HalfOpen counts); a caller first polled when that many trials are already admitted is rejected in that instant (OpenCircuit / fallback) and never enters. Non-trivial: a caller is polled in a half-open period in which the permitted number of trials is already admitted with at least one still in flight; distinct by hash of the case"
 );
